@@ -69,14 +69,16 @@ void EDEV_notifyInfoRetrieved(EDEV* self) {
 }
 static inline _Bool FTR_isValid(FTR* self) { return self->m_fd != -1; }
 static inline void FTR_close(FTR* self) { self->m_fd = -1; }
-/* ::read(fd, buf, count): returns -1/0 or k in 1..count and stores the next k bytes of the adapter stream */
+/* ::read(fd, buf, count): returns -1/0 or k in 1..count and stores the next k bytes of the adapter stream at buf (the place the code asks for) */
+const symbol_t* g_stream_ro; size_t g_streampos; unsigned g_read_calls;
 static inline long env_read(int fd, symbol_t* buf, size_t count) {
-  g_read_space = count;
+  g_read_space = count; g_read_calls = g_read_calls + 1;
   __CPROVER_assert(count <= 32 && count >= 1, "[C20] ::read is asked for at least one and at most the free bytes of the buffer");
   long k = g_read_ret;
   if (k <= 0) return k;
   __CPROVER_assume((size_t)k <= count);
-  FTR* t = (FTR*)0;
+  for (size_t i = 0; i < 32; i++) { if (i < (size_t)k) buf[i] = g_stream_ro[g_streampos + i]; }
+  g_streampos = g_streampos + (size_t)k;
   return k;
 }
 #include "spec.h"
@@ -226,14 +228,11 @@ void h_transport(void) {
   if (nondet_bool()) {
     unsigned timeout = nondet_uint(); g_poll_ret = nondet_int(); g_read_ret = nondet_long();
     __CPROVER_assume(timeout <= 100000 && g_poll_ret >= -1 && g_poll_ret <= 1 && g_read_ret >= -1 && g_read_ret <= 32);
-    /* the stub of ::read copies the next stream bytes behind the buffered ones (done here because the stub has no access to the transport) */
+    /* the stub of ::read stores the next stream bytes where the code asks for them */
     _Bool overflow = n0 > 0 && n0 > 32 - 32 / 4;
-    size_t at = overflow ? 0 : n0;
-    symbol_t pre[32]; for (int i = 0; i < 32; i++) pre[i] = buffer[i];
-    size_t streampos = g_base + n0;     /* position of the next byte the adapter delivers */
-    _Bool willread = timeout > 0 && g_poll_ret > 0 && t.m_fd != -1;   /* the only path on which ::read is called */
-    for (size_t i = 0; i < 32; i++) { if (willread && i >= at && g_read_ret > 0 && i < at + (size_t)g_read_ret) buffer[i] = g_stream[streampos + (i - at)]; }
+    g_stream_ro = stream; g_streampos = g_base + n0; g_read_calls = 0;     /* position of the next byte the adapter delivers */
     result_t r = FTR_read(&t, timeout, &data, &len);
+    __CPROVER_assert(g_read_calls <= 1, "[C14] the device is read at most once per call");
     if (r == RESULT_OK) {
       __CPROVER_assert(data == buffer && len == t.m_bufLen && len >= 1 && len <= 32, "[C14] read hands out the whole buffer");
       if (timeout == 0) { __CPROVER_assert(t.m_bufLen == n0 && g_overflow_notes == 0, "[C14] timeout 0 only returns what is buffered"); }
